@@ -108,6 +108,20 @@ def _run(case):
     torch._OBSERVER, torch._YIELD = observer, yielder
     secs = []
 
+    thread_errors = []
+
+    def guarded(fn):
+        """an exception that ends a sim thread is part of the observation (it is not to be lost with the thread)"""
+        def run():
+            try:
+                fn()
+            except S.Abort:
+                raise
+            except BaseException as e:  # noqa: BLE001
+                import traceback
+                thread_errors.append({"error": f"{type(e).__name__}: {e}", "tb": traceback.format_exc()[-1500:]})
+        return run
+
     def inferrer():
         sys.settrace(tracer)
         try:
@@ -153,8 +167,8 @@ def _run(case):
     sched.log = log
 
     def main():
-        a = S.Thread(target=inferrer, name="inf")
-        b = S.Thread(target=trainer, name="train")
+        a = S.Thread(target=guarded(inferrer), name="inf")
+        b = S.Thread(target=guarded(trainer), name="train")
         a.start(); b.start()
         a.join(); b.join()
 
@@ -165,6 +179,8 @@ def _run(case):
         S.set_sched(None)
     if sched.deadlock is not None:
         return {"error": f"deadlock: {sched.deadlock}"}
+    if thread_errors:
+        return thread_errors[0]
     # module ids -> 0 (first training module), 1 (first inference module)
     ren = {ids["train0"]: 0, ids["inf0"]: 1}
     out = []
